@@ -3,7 +3,7 @@ META = dict(
     level="proof",
     claim="Primitive sizes/alignments/signedness and the type constructors equal the psABI table (real initialisers); align_to/align_down are the least/greatest multiple for every power-of-two alignment <= 64 and n < 2^30; struct_decl and union_decl produce, for every combination of member kinds (plain, bit-field of any width incl. zero width, unnamed), packed and aligned() attribute, exactly the psABI 3.1.2 offsets, bit positions, size and alignment, and the layout is overlap-free and unit-respecting. Layout is bounded to 3 members per aggregate (reported as bounded); member type sizes are case-split (they are divisors).",
     note="Trusted: CBMC, spec/psabi_layout.h. The token-consuming struct_union_decl is replaced by a contract returning a prepared member list (assumed). struct_members builds member descriptors (type, index, name, bit-field width, alignment = _Alignas or the type's) on a concrete token shape with declspec/declarator/const_expr as stand-in stubs. Not covered: specifier decoding (declspec), declarators, offsetof macro, anonymous nested aggregates, flexible array members.",
-    functions=["parse.c:struct_members", "parse.c:struct_decl", "parse.c:union_decl", "parse.c:align_down", "codegen.c:align_to", "type.c:pointer_to", "type.c:array_of", "type.c:enum_type", "type.c:copy_type", "type.c:func_type", "type.c:new_type"],
+    functions=["parse.c:declspec", "parse.c:struct_members", "parse.c:struct_decl", "parse.c:union_decl", "parse.c:align_down", "codegen.c:align_to", "type.c:pointer_to", "type.c:array_of", "type.c:enum_type", "type.c:copy_type", "type.c:func_type", "type.c:new_type"],
     trusted_base=["CBMC 6.11", "spec/psabi_layout.h (psABI 3.1.2 + GCC bit-field rules)"],
     assumptions=["struct_union_decl returns the aggregate type with its member list built (contract)"],
 )
@@ -33,6 +33,10 @@ def jobs(tier):
         js.append(Job(name=f"struct-{a}-{b}-{c}-alignas16", src="layout.c", group="C08.3/4 aggregate layout", defs={"S0": str(a), "S1": str(b), "S2": str(c), "A1": "16", "NO_BITFIELDS": ""},
                       units=["type.c", "codegen.c"], mode="legacy", replace=["struct_union_decl"], cut=CUT, unwind=5, timeout=600, replay=None,
                       bounded="3 members per aggregate", sample=f"struct with an _Alignas(16) member, sizes {a},{b},{c}"))
+    for f in (0, 1):
+        js.append(Job(name=f"alignas-{'type' if f == 0 else 'value'}", src="alignas.c", group="C08.5 _Alignas", defs={"FORM": str(f)}, mode="plain", cut=["error", "error_tok", "error_at", "warn_tok", "verror_at"], units=["type.c"],
+                      redirect={"is_typename": "stub_is_typename", "typename": "stub_typename", "const_expr": "stub_const_expr"}, unwind=12, unwindset=["strlen.0:24", "memcmp.0:24"], timeout=300, replay=None,
+                      sample="declspec on _Alignas(" + ("T" if f == 0 else "N") + ") int x with an arbitrary type / value"))
     return js
 
 
